@@ -68,6 +68,8 @@ class Swapped(object):
 def bswap(c):
     if isinstance(c, Swapped):
         return c.x
+    if isinstance(c, (int, float)) and not isinstance(c, bool) and c == 0:
+        return c            # all-zero bytes read the same in either order
     return Swapped(c)
 
 
